@@ -29,7 +29,8 @@ def run(tier, replay=None):
         C.write_ndjson(inp, metas[:1] + cases)
         if release:
             C.build_harness(release=True)
-        p = C.run_harness(["pattern", inp, outp], timeout=2400, release=release)
+        # a zone with an offset, so that {d(..)(utc)} and {d(..)(local)} differ
+        p = C.run_harness(["pattern", inp, outp], timeout=2400, release=release, env={"TZ": "<+0530>-5:30"})
         summ = json.loads(p.stdout.strip().splitlines()[-1])
         if summ["cases"] != len(cases):
             raise C.ToolError("harness processed %s of %s cases" % (summ["cases"], len(cases)))
@@ -50,8 +51,9 @@ def run(tier, replay=None):
                 "non-ASCII target; special characters and 4 non-ASCII characters in the message); the encoder output "
                 "(bytes and style requests in line) must equal the denotation; non-trivial = patterns containing a "
                 "formatter or group")
-    run.assumptions = ["process / thread ids and strftime dates are opaque atoms: a digit run resp. any non-error text "
-                       "is accepted; a width applied to them is not compared beyond the preceding text",
+    run.assumptions = ["process / thread ids are opaque digit runs; a date is compared with the harness's own clock readings "
+                       "around the call formatted with the pattern's format and zone (TZ = +05:30 so that utc and local "
+                       "differ); a width applied to an opaque atom is not compared beyond the preceding text",
                        "the colour chosen per level is not compared, only that a style request precedes and a reset "
                        "follows the highlighted group", "release-profile {R(..)} rendering is replayed in the thorough tier"]
     return run.finish()
